@@ -11,6 +11,7 @@
 import Props.Defs
 import Proofs.Vector
 import Coma.Corr
+import Proofs.Peaks
 namespace Coma.Props
 open Coma Coma.Spec
 
@@ -80,6 +81,52 @@ theorem C16_top_n_per_correlation (count res start : Int) (peaks : List (Int × 
 theorem C16_all_peaks_when_few (count res start : Int) (peaks : List (Int × Int)) (h : ¬ count < peaks.length) :
     createPeaks count res start peaks = peaks.map (fun p => (toBp p.1 res start, p.2)) := by
   simp [createPeaks, h]
+
+/-! ### the secondary seeding stage (`Coma/Peaks.lean`): what the seeds handed to the aligner are -/
+
+/-- `find_peaks` as `refine` calls it returns exactly the midpoints of the local-maximum plateaus whose
+    height reaches the threshold and whose prominence is at least a twentieth of the largest sample -/
+theorem C16_secondary_peaks (thr : Rat) (x : List Int) (p : Nat) (h : Int) :
+    (p, h) ∈ findPeaksSecondary thr x ↔
+      (∃ l r, Coma.Proofs.IsPlateau x l r ∧ p = (l + r) / 2) ∧ x[p]? = some h ∧ thr ≤ (h : Rat) ∧
+        maxInit0 x ≤ 20 * prominence x p := by
+  rw [Coma.Proofs.findPeaksSecondary_iff, Coma.Proofs.localMaxima_iff]
+
+/-- … in ascending order of position -/
+theorem C16_secondary_peaks_sorted (thr : Rat) (x : List Int) :
+    ((findPeaksSecondary thr x).map (·.1)).Pairwise (· < ·) :=
+  Coma.Proofs.findPeaksSecondary_sorted thr x
+
+/-- every seed of the secondary stage is the centre of a bin `k` of the refinement window (which starts
+    at `peak − margin`) where the secondary correlation has such a local maximum, with its height -/
+theorem C16_seed_is_bin_centre (c : SecCfg) (ref q : OMap) (rev : Bool) (peak : Int) (pk : List (Int × Int))
+    (h : refine c ref q rev peak = .ok pk) :
+    ∃ corr, refineCorrelation c ref q rev peak = .ok corr ∧
+      ∀ e ∈ pk, ∃ k : Nat, (k, e.2) ∈ findPeaksSecondary c.thr (corr.map Int.ofNat) ∧
+        e.1 = toBp (k : Int) c.res (peak - c.margin) :=
+  Coma.Proofs.refine_sound c ref q rev peak pk h
+
+/-- when more than ten peaks pass, exactly the ten highest become seeds; otherwise all of them do -/
+theorem C16_secondary_top (c : SecCfg) (ref q : OMap) (rev : Bool) (peak : Int) (corr : List Nat) (hk : 0 ≤ c.keep)
+    (hc : refineCorrelation c ref q rev peak = .ok corr)
+    (hn : c.keep < ((findPeaksSecondary c.thr (corr.map Int.ofNat)).length : Int)) :
+    ∃ kept rest : List (Nat × Int),
+      refine c ref q rev peak = .ok (kept.map fun p => (toBp (p.1 : Int) c.res (peak - c.margin), p.2)) ∧
+      kept.length = c.keep.toNat ∧ (kept ++ rest).Perm (findPeaksSecondary c.thr (corr.map Int.ofNat)) ∧
+      ∀ a ∈ kept, ∀ b ∈ rest, b.2 ≤ a.2 :=
+  Coma.Proofs.refine_top c ref q rev peak corr hk hc hn
+
+theorem C16_secondary_all_when_few (c : SecCfg) (ref q : OMap) (rev : Bool) (peak : Int) (corr : List Nat)
+    (hc : refineCorrelation c ref q rev peak = .ok corr)
+    (hn : ¬ c.keep < ((findPeaksSecondary c.thr (corr.map Int.ofNat)).length : Int)) :
+    refine c ref q rev peak =
+      .ok ((findPeaksSecondary c.thr (corr.map Int.ofNat)).map fun p => (toBp (p.1 : Int) c.res (peak - c.margin), p.2)) :=
+  Coma.Proofs.refine_all_when_few c ref q rev peak corr hc hn
+
+/-- non-vacuity: a two-label molecule refined against a reference that contains it -/
+example : (refine { res := 100, blur := 1, margin := 500, thr := 2, keep := 10 }
+            { id := 1, length := 3000, positions := [400, 1000, 1700, 2300] }
+            { id := 2, length := 701, positions := [0, 700] } false 1000).toOption = some [(1049, 4)] := by decide +kernel
 
 /-- non-vacuity -/
 example : (vectorise [150, 420, 430, 999] 100 100 none).toOption = some [1, 0, 0, 1, 0, 0, 0, 0, 1] := by decide +kernel
